@@ -1,7 +1,7 @@
 (* Decidable comparisons used by the generated case shards (coq/Run): each case carries the inputs AND the
    observables the real code produced; [check_*] runs the model on the inputs and compares.  Trusted to
    state the comparison correctly (DESIGN.md, trusted base). *)
-From Connectome Require Import Values Attrs VM Edges Store NameSet MemGen ShardGen ColStore ColumnsGen Columns.
+From Connectome Require Import Values Attrs VM Edges Store NameSet MemGen MemPickleGen ShardGen ColStore ColumnsGen Columns.
 From Connectome Require Import GraphHashModel.
 
 Definition which_eqb (a b : which) : bool := match a, b with WH, WH | WC, WC => true | _, _ => false end.
@@ -169,7 +169,7 @@ Fixpoint check_mops (c : cache_state) (i : nat) (ops : list (mcop * (option nat 
                       | OGet k => c_get c (mkey k)
                       | OSet k v => (None, c_set c (mkey k) (SVal (VNat v)))
                       | OClear => (None, c_clear c)
-                      | OPickle => (None, if list_eqb String.eqb MemGen.mc_reduce_keeps ["size"%string] then new_cache (ck c) else c) end in
+                      | OPickle => (None, if list_eqb String.eqb MemPickleGen.mc_reduce_keeps ["size"%string] then new_cache (ck c) else c) end in
       let ok_hit := match o, r, hit with
                     | OGet _, Some (SVal (VNat v)), Some w => Nat.eqb v w
                     | OGet _, None, None => true
